@@ -82,6 +82,14 @@ CHECKS = {
             "Trusted: Lean kernel, ARC-4 convention as written in the spec part (cross-checked with algosdk), inner-transaction semantics of "
             "the AVM spec. One known finding (no tuple packing beyond 15 arguments).",
             "DESIGN.md Part II C14"),
+    "C09": ("proof",
+            "Lean 4 proof: arg_binding (the model of the router's argument-decoding glue equals the callee side of the ARC-4 convention for every signature), tuple_cutoff via the ARC-4 codec theorems, return_logged_once, contract_selectors; decoding events of the real TEAL compared with the model; echoing handlers executed on groups built by an independent algosdk client",
+            "Universal theorems over signatures (any number and order of plain, reference and transaction parameters); per generated signature "
+            "the real approval TEAL's decoding events equal the model's instruction list and the executed handler echoes exactly what an "
+            "independent ARC-4 client encoded; non-void results are logged once with the return prefix; the contract lists the dispatched methods.",
+            "Trusted: Lean kernel, ARC-4 convention as written in the spec part (cross-checked with algosdk each run), Arc4.lean, AVM spec, "
+            "algosdk selectors/encodings. One defect repaired (contract ignored overriding_name).",
+            "DESIGN.md Part II C09"),
     "C10": ("proof",
             "Lean 4 proof: injectivity / requested-id / range / totality theorems on a model of assignScratchSlotsToSubroutines, correspondence on random and boundary slot layouts, marker programs executed on the AVM spec",
             "Universal theorems (any number of slots, any routine layout, any iteration order of the slot set) about the model of slot "
